@@ -114,6 +114,51 @@ PROPS = {
                   "panic; input unchanged",
         "assumptions": COMMON_ASSUMPTIONS,
     },
+    "C07": {
+        "test": "TestC07", "variant": "elem",
+        "quick": {"shards": 16, "timeout": 1500},
+        "thorough": {"shards": 16, "timeout": 7200},
+        "rule": "histories of 3..30 API calls growing a pool of elements from the generator and identity: k*G, CRS points, "
+                "Add/Sub/Double/Neg, ScalarMul with recipe and GLV-edge scalars, MultiExp over pool elements, Commit of sparse "
+                "vectors (table path), decode of Bytes(), trusted uncompressed round trip, Normalize / BatchNormalize in place, "
+                "projective rescaling and sign flip through the hook, adding the decoded 2-torsion point, collision makers "
+                "(P+Q-Q, (s+t)P vs sP+tP, -P vs (r-1)P, P-P, Set). All pairs of the final pool are compared. Non-trivial = a "
+                "history whose pool contains both a pair that is equal with different (X,Y,Z) triples and an unequal pair; "
+                "distinct by the history.",
+        "oracle": "reference arithmetic on the raw coordinates (hook): P.Equal(Q) == Q.Equal(P) == reference class equality == "
+                  "(P.Bytes() == Q.Bytes()); Bytes() == reference compression; decode(Bytes()) succeeds and equals P; reflexive; "
+                  "never true against the zero value; every operation result is a valid curve point",
+        "assumptions": COMMON_ASSUMPTIONS,
+    },
+    "C11": {
+        "test": "TestC11", "variant": "elem",
+        "quick": {"shards": 16, "timeout": 1500},
+        "thorough": {"shards": 16, "timeout": 7200},
+        "rule": "pool histories as in C07 (3..24 calls) plus a batch of length {0,1,2,3,15,16,17,100,255,256,257,300,uniform<=300} "
+                "of pool pointers (random with repeats / sequential / triplicated). Non-trivial = the pool contains an element "
+                "with Z != 1 (results of MSM, table, GLV, rescaling paths); distinct by the case.",
+        "oracle": "reference x/y mod p read little-endian mod r from the raw coordinates; equal values iff reference-equal "
+                  "elements over all pool pairs; BatchMapToScalarField equals the single call position by position, reports a "
+                  "length mismatch, and leaves inputs untouched; destination scalars start dirty",
+        "assumptions": COMMON_ASSUMPTIONS,
+    },
+    "C08": {
+        "test": "TestC08", "variant": "elem",
+        "quick": {"shards": 16, "timeout": 1500},
+        "thorough": {"shards": 16, "timeout": 7200},
+        "rule": "operation cases: op in {Add, Sub, Double, Neg, ScalarMul, AddMixed, Set, SetIdentity, algebraic laws}; operands "
+                "from {identity (0,1), its other representative (0,-1), +-G, CRS points, small and uniform multiples of G, sums} x "
+                "representation {Z=1, rescaled, sign-flipped, both}; scalars from recipes (0,1,small,r-1..r-4,2^k,2^k-1,limb "
+                "patterns, window recipes, small Montgomery representation, uniform) and a list of GLV edge values (lambda, "
+                "lambda+-1, r-lambda, j*lambda, 2^63..2^252 +-, r/2, sqrt r); aliasing pattern {fresh receiver, receiver=p1, "
+                "receiver=p2, p1=p2, all three}; deterministic sweep of every edge scalar on identity/(0,-1)/G/CRS in all "
+                "representations. Non-trivial = aliased receiver, non-plain or identity-class operand, or an edge scalar.",
+        "oracle": "differential against the reference group law (fast backend on all cases, math/big backend on a 1/16 sample), "
+                  "compared up to Banderwagon equivalence on raw coordinates; results must be valid curve points; operands that "
+                  "are not the receiver unchanged bit for bit; laws (s+t)P=sP+tP, s(P+Q)=sP+sQ, 0*P=id, (r-1)P+P=id, P-P=id, "
+                  "P+id=P, P+sP=(s+1)P",
+        "assumptions": COMMON_ASSUMPTIONS,
+    },
     "C16": {
         "test": "TestC16", "variant": "elem",
         "quick": {"shards": 16, "timeout": 900},
